@@ -482,7 +482,8 @@ def run_scenario(args):
       protos = [a.proto for a in batch]
       crit = crit_for(kind, batch, max_diff)
       if call['all']:
-        rec = checks.record_call('%s-c%d' % (sid, ci), kind, batch, lambda: entry(protos), None, crit)
+        ll = call.get('log_level')
+        rec = checks.record_call('%s-c%d' % (sid, ci), kind, batch, (lambda: entry(protos)) if ll is None else (lambda: entry(protos, log_level=ll)), None, crit)
       else:
         chk = registry.get(call['check'])
         if chk is None:
